@@ -70,6 +70,8 @@ async fn run_case(case: Vec<String>, detail: bool) -> String {
         .map(|s| s.split(',').filter(|x| !x.is_empty()).map(|x| x.parse().unwrap()).collect())
         .unwrap_or_default();
     probes.sort();
+    // C07: where each response comes from: d = the INVITE's destination, p = same host other port, h = another host
+    let sources: Vec<String> = case.get(8).map(|s| s.split(',').map(|x| x.to_string()).collect()).unwrap_or_default();
 
     let clock = Clock::new();
     let wire: WireLog = Default::default();
@@ -168,7 +170,7 @@ async fn run_case(case: Vec<String>, detail: bool) -> String {
     let cseq = header_lines(&first, "cseq").join("\r\n");
 
     let mut pi = 0;
-    for (t, code, tag) in &arrivals {
+    for (ai, (t, code, tag)) in arrivals.iter().enumerate() {
         while pi < probes.len() && probes[pi] < *t {
             advance_to(&clock, probes[pi]).await;
             settle_now().await;
@@ -181,7 +183,12 @@ async fn run_case(case: Vec<String>, detail: bool) -> String {
             "SIP/2.0 {} Reason\r\n{}\r\n{}\r\n{}\r\n{}\r\n{}\r\nContact: <sip:bob@10.9.9.9>\r\nContent-Length: 0\r\n\r\n",
             code, via, from, to_line, cid, cseq
         );
-        inject(&endpoint, resp.as_bytes(), dest, &tp);
+        let source: SocketAddr = match sources.get(ai).map(|s| s.as_str()) {
+            Some("p") => "10.9.9.9:41234".parse().unwrap(),
+            Some("h") => "10.9.9.77:5060".parse().unwrap(),
+            _ => dest,
+        };
+        inject(&endpoint, resp.as_bytes(), source, &tp);
         settle_now().await;
         evlog.lock().push((next_seq(), *t, format!("N:{}", endpoint.verif_counts().0)));
     }
